@@ -442,8 +442,9 @@ impl Scanner {
             return Ok(result);
         }
 
-        let offset = self.pos + result.len();
-        Err(self.error_at(offset, "string literal not terminated"))
+        // report the start of the literal: newlines inside an unterminated raw
+        // string are not in the line table, so its end has no valid column
+        Err(self.error_at(self.pos, "string literal not terminated"))
     }
 
     fn scan_digits(&mut self, skp: usize, mut result: String, valid: fn(char) -> bool) -> String {
